@@ -2,7 +2,7 @@
 (* Generator configurations of Pipeline.tla (direction A).  The cfg files choose ChainSet. *)
 EXTENDS Catalog, Randomization
 
-CONSTANTS Vals, MaxSteps, MaxIllegal, Cuts, ChainSetName, SampleN
+CONSTANTS Vals, MaxSteps, MaxIllegal, Cuts, ChainSetName, SampleN, MaxSubs, FaultSetName
 
 ValsNeg == {-1, 0, 2}      \* a negative, zero, a positive; both parities; 2 triggers the error-returning callback
 
@@ -12,8 +12,13 @@ ChainSet ==
     [] ChainSetName = "pairs-sample" -> RandomSubset(SampleN, Chains2T)
     [] OTHER -> Chains1
 
-VARIABLES chain, sts, phase, srcSub, srcTorn, srcDone, unsub, closed, log, nitems, nillegal, h
-P == INSTANCE Pipeline WITH Chains <- ChainSet
+FaultSet ==
+  CASE FaultSetName = "none" -> {[stage |-> 0, at |-> 0, kind |-> "none"]}
+    [] FaultSetName = "callbacks" -> {[stage |-> st, at |-> at, kind |-> kd] : st \in {-1, 1, 2}, at \in 0..2, kd \in {"panic-err", "panic-val"}}
+    [] OTHER -> {[stage |-> 0, at |-> 0, kind |-> "none"]}
+
+VARIABLES chain, sts, phase, srcSub, srcTorn, srcDone, unsub, closed, log, nitems, nillegal, h, fault, nsubs, prev
+P == INSTANCE Pipeline WITH Chains <- ChainSet, Faults <- FaultSet
 
 Spec == P!Spec
 Grammar == P!Grammar
@@ -22,5 +27,5 @@ ClosedImpliesTorn == P!ClosedImpliesTorn
 TypeOK == P!TypeOK
 EmitCase == P!EmitCase
 \* exhaustive checking configurations hide the history (it multiplies states without adding behaviour)
-View == <<chain, sts, phase, srcSub, srcTorn, srcDone, unsub, closed, log, nitems, nillegal>>
+View == <<chain, sts, phase, srcSub, srcTorn, srcDone, unsub, closed, log, nitems, nillegal, fault, nsubs, prev>>
 =============================================================================
